@@ -1,8 +1,8 @@
 package core
 
 import (
-	"bytes"
 	"bufio"
+	"bytes"
 	"crypto/sha256"
 	"encoding/hex"
 	"encoding/json"
@@ -121,16 +121,16 @@ type Run struct {
 	Start    time.Time
 	Scratch  string
 
-	mu         sync.Mutex
-	Coverage   map[string]any
-	Assume     []string
-	Viols      []Violation
-	Known      map[string]int // finding id -> matched count
-	Inconcl    []string
-	samples    []any
-	findings   []Finding
-	violTotal  int
-	Replay     bool
+	mu           sync.Mutex
+	Coverage     map[string]any
+	Assume       []string
+	Viols        []Violation
+	Known        map[string]int // finding id -> matched count
+	Inconcl      []string
+	samples      []any
+	findings     []Finding
+	violTotal    int
+	Replay       bool
 	ReplayStream string
 	ReplayIndex  uint64
 }
